@@ -62,4 +62,36 @@ def c01CheckBreakdown (obs : List Path) (bd : List (List (Path × Reason))) : Op
   else if u.any (fun t => !obs.contains t) then some "breakdown entry missing from the summary"
   else none
 
+/-! ### target paths that may be written with one trailing separator -/
+
+/-- SPEC for target paths that may carry one trailing separator: the directory a target names is
+`dirOf T.path`. On normal target paths this is `Affected`. -/
+def AffectedD (strict : Bool) (cfg : Config) (p : Path) (T : Target) : Prop :=
+  T ∈ cfg ∧ ¬ Ign T p ∧
+    (Within (dirOf T.path) p ∨
+      ∃ N ∈ cfg, Within (dirOf T.path) (dirOf N.path) ∧ ¬ Ign N p ∧
+        ∃ u ∈ N.uses, Within u p ∧ (strict = true → UseCounts cfg p u))
+
+def wfAllDB (cfg : Config) : Bool :=
+  wfDB cfg && cfg.all (fun t => t.uses.all normalB && t.ignores.all normalB)
+
+/-- a change is never the directory of a target itself (it is a file) -/
+def changeOkB (cfg : Config) (p : Path) : Bool :=
+  normalB p && cfg.all (fun T => !(T.path.getLast? == some sep && p == dirOf T.path))
+
+def affectedDB (strict : Bool) (cfg : Config) (p : Path) (T : Target) : Bool :=
+  !ignB T p &&
+    (withinB (dirOf T.path) p ||
+      cfg.any (fun N => withinB (dirOf T.path) (dirOf N.path) && !ignB N p &&
+        N.uses.any (fun u => withinB u p && (!strict || useCountsB cfg p u))))
+
+def c01CheckTargetsD (cfg : Config) (cs : List Path) (obs : List Path) : Option String :=
+  if !strictlySorted obs then some "targets not strictly sorted"
+  else if obs.any (fun t => !cfg.any (fun T => T.path == t)) then some "reports a path that is not a configured target"
+  else match cfg.find? (fun T => cs.any (fun p => affectedDB true cfg p T) && !obs.contains T.path) with
+    | some _ => some "an affected target is missing"
+    | none => match cfg.find? (fun T => obs.contains T.path && !cs.any (fun p => affectedDB false cfg p T)) with
+      | some _ => some "a target is reported although no change affects it"
+      | none => none
+
 end Monorail
